@@ -58,6 +58,15 @@ def make_v2(chords, keys, red=1, minidle=5, lkey=None):
     return desc, params
 
 
+def episodes(rng, keys, n_episodes, gaps, settle):
+    """Random schedule made of short bursts (2-8 physically consistent events with gaps around the timeout), each
+    followed by the release of everything and a pause long enough for kanata to settle."""
+    s = []
+    for _ in range(n_episodes):
+        s += rand_history(rng, keys, rng.randint(2, 8), gaps, release_all=True, tail=settle)
+    return s
+
+
 def family(tier):
     """(name, (desc, params), mc options).  `depth`: only schedules of at most that many steps (the full graph of the
     chords-v2 tables with a third key is in the millions because of the known findings); without it: the full graph."""
@@ -74,10 +83,11 @@ def family(tier):
         return [
             ("v1_pair_T3", v1_pair(3), {"qmax": 3}),
             ("v1_plain_T2", v1_plain(2), {"qmax": 2}),
+            ("v1_sub_T2", v1_sub(2), {"qmax": 2, "depth": 16}),
             ("v2_first_T2", v2_first(2), {"qmax": 2}),
-            ("v2_uni_T2", v2_uni(2), {"qmax": 2, "depth": 30}),
-            ("v2_pair_T2", v2_pair(2), {"qmax": 2, "depth": 16}),
-            ("v2_sub_T2", v2_sub(2), {"qmax": 2, "depth": 17}),
+            ("v2_uni_T2", v2_uni(2), {"qmax": 2, "depth": 32}),
+            ("v2_pair_T2", v2_pair(2), {"qmax": 2, "depth": 17}),
+            ("v2_sub_T2", v2_sub(2), {"qmax": 2, "depth": 18}),
             ("v2_layer_T2", v2_layer(2), {"qmax": 2, "depth": 16}),
         ]
     return [
@@ -91,9 +101,18 @@ def family(tier):
         ("v2_first_T2", v2_first(2), {"qmax": 3}),
         ("v2_first_T3", v2_first(3), {"qmax": 2}),
         ("v2_uni_T2", v2_uni(2), {"qmax": 2}),
-        ("v2_pair_T2", v2_pair(2), {"qmax": 2, "depth": 22}),
-        ("v2_sub_T2", v2_sub(2), {"qmax": 2, "depth": 22}),
-        ("v2_layer_T2", v2_layer(2), {"qmax": 2, "depth": 21}),
+        ("v2_uni_T3", v2_uni(3), {"qmax": 2, "depth": 40}),
+        ("v2_pair_T2", v2_pair(2), {"qmax": 2, "depth": 25}),
+        ("v2_sub_T2", v2_sub(2), {"qmax": 2, "depth": 25}),
+        ("v2_layer_T2", v2_layer(2), {"qmax": 2, "depth": 23}),
+        # overlapping chords with different release rules; an undefined superset (a b c)
+        ("v2_ovl_T2", make_v2([(("a", "b"), 2, "all", [], None), (("b", "c"), 2, "first", [], None)], "abc"),
+         {"qmax": 2, "depth": 22}),
+        # a defined superset two keys larger: (a b c) pressed is an undefined set between two chords
+        ("v2_super_T2", make_v2([(("a", "b"), 2, "all", [], None), (("a", "b", "c", "d"), 2, "all", [], None)], "abcd"),
+         {"qmax": 2, "depth": 15}),
+        # chords v1 without single-key chords: undefined singles are consumed silently
+        ("v1_nosingle_T2", make_v1(2, "", [("a", "b"), ("a", "b", "c")]), {"qmax": 2, "depth": 28}),
     ]
 
 
@@ -232,12 +251,13 @@ def run(tier, seed):
         n = 30 if tier == "quick" else 200
         T = max([params["T"]] + [c["T"] for c in params["chords"]])
         gaps = [0, 0, 1, 1, max(T - 1, 0), T, T + 1, T + params["minidle"] + 2, 3 * T + 12]
-        scripts = [rand_history(rng, keys, rng.randint(4, 40 if tier == "quick" else 200), gaps, tail=60) for _ in range(n)]
+        settle = T + params["minidle"] + params["slack"] + 3 * params["red"] + 12
+        scripts = [episodes(rng, keys, rng.randint(2, 6), gaps, settle) for _ in range(n)]
         jobs_random.append({"cfg": kbd, "params": params, "tag": "r:" + name, "scripts": scripts})
     sched_jobs = []
     nsched = 0
     for name, (desc, params), ec in schedule_family(tier):
-        if only and only not in name:
+        if (only and only not in name) or os.environ.get("C09_SKIP_SCHED"):
             continue
         scripts = enumerate_schedules(wd, name, **ec)
         nsched += len(scripts)
